@@ -64,6 +64,28 @@ func tagOf(d sessDesc, sid []byte) ([]byte, error) {
 	return ssidOf(h), nil
 }
 
+type c09Msgs struct {
+	name string
+	a, b []byte
+}
+
+// c09MsgFamily: pairs of different messages to sign (32-byte digests and longer messages).
+func c09MsgFamily(r *vk.Rand) []c09Msgs {
+	m := r.Bytes(32)
+	l := r.Bytes(64)
+	flip := func(b []byte, i int) []byte { o := append([]byte{}, b...); o[i] ^= 1; return o }
+	return []c09Msgs{
+		{"32B-first-byte", m, flip(m, 0)},
+		{"32B-last-byte", m, flip(m, 31)},
+		{"32B-vs-31B-prefix", m, m[:31]},
+		{"64B-last-byte", l, flip(l, 63)},
+		{"64B-byte-32", l, flip(l, 32)},
+		{"64B-vs-32B-prefix", l, l[:32]},
+		{"64B-vs-65B", l, append(append([]byte{}, l...), 0)},
+		{"200B-last-byte", append(append([]byte{}, l...), bytes.Repeat([]byte{7}, 136)...), append(append([]byte{}, l...), append(bytes.Repeat([]byte{7}, 135), 8)...)},
+	}
+}
+
 func mh(sf protocol.StartFunc) func(sid []byte) (protocol.Handler, error) {
 	return func(sid []byte) (protocol.Handler, error) { return protocol.NewMultiHandler(sf, sid) }
 }
@@ -191,6 +213,8 @@ func c09Tags(t *vk.T, i int, withCMP bool) {
 		pp("doerner.Keygen-vs-SignSender", dk("b", "a", false), dsS)
 		pp("doerner.Keygen-vs-Refresh", dk("a", "b", true), drR)
 		pp("doerner.Keygen-vs-frost.Keygen(2 parties)", dk("a", "b", true), fk([]party.ID{"a", "b"}, 1))
+		// (the message dimension is demanded for CMP only - the statement says so -: FROST and Doerner signing bind
+		// the message below the session tag, in the challenge; no message pairs here)
 		// participant sets
 		for _, f := range idFamilies(r) {
 			A, B := f[1].([]party.ID), f[2].([]party.ID)
@@ -287,6 +311,11 @@ func c09Tags(t *vk.T, i int, withCMP bool) {
 		pp("key-material", "cmp.Presign(full)/derived", pf(a, S, msg), pf(cmd.Cfgs["a"], S, msg))
 		pp("key-material", "cmp.PresignOnline/derived-config", on(a, pre["a"], msg), on(cmd.Cfgs["a"], pre["a"], msg))
 		pp("presignature", "cmp.PresignOnline/other-presignature", on(a, pre["a"], msg), on(a, pre2["a"], msg))
+		for _, mf := range c09MsgFamily(r) {
+			pp("message", "cmp.Sign/"+mf.name, sg(a, S, mf.a), sg(a, S, mf.b))
+			pp("message", "cmp.Presign(full)/"+mf.name, pf(a, S, mf.a), pf(a, S, mf.b))
+			pp("message", "cmp.PresignOnline/"+mf.name, on(a, pre["a"], mf.a), on(a, pre["a"], mf.b))
+		}
 		pp("message", "cmp.Sign", sg(a, S, msg), sg(a, S, msg2))
 		pp("message", "cmp.Sign/prefix", sg(a, S, msg), sg(a, S, msg[:31]))
 		pp("message", "cmp.Presign(full)", pf(a, S, msg), pf(a, S, msg2))
